@@ -21,7 +21,17 @@ def cases(draw, tier):
             deps.insert(draw(st.integers(0, 1)), "s0")
         body.append(["dep", 1, deps])
         body.append(["out", "stdout"])
+        if draw(st.integers(0, 99)) < 35:
+            body.append(["stamp"])     # a checksummed member: dependents reach it through the out-of-band path
         dofiles[t + ".do"] = {"v": 1, "body": body}
+    # "late" variant: the first build is acyclic (the member that closes the cycle depends on the source only);
+    # then its .do is edited so that the cycle exists, and the command under test is a REBUILD
+    late = None
+    if draw(st.integers(0, 99)) < 40:
+        closer = cyc[k - 1] + ".do"
+        v2 = dofiles[closer]
+        v1 = {"v": 1, "body": [stt if stt[0] != "dep" else ["dep", 1, ["s0"]] for stt in v2["body"]]}
+        late = {"dofile": closer, "spec": dict(v2, v=2), "edit_source": draw(st.integers(0, 1))}
     # acyclic prefix leading into the cycle, and acyclic siblings
     npre = draw(st.integers(0, 3))
     pre = []
@@ -79,8 +89,11 @@ def cases(draw, tier):
         if jobs > 1:
             js = {"tokens": jobs - 1, "held": 0, "high": True}
     cyc_entries = [e for e in entries if e in cyc]
-    proj = {"dirs": [""], "sources": ["s0"], "dofiles": dofiles, "targets": cyc + pre + sib, "watch": []}
-    return {"project": proj, "invs": [{"argv": argv, "cwd": "", "env": env, "jobserver": js}], "cycle": cyc,
+    pdof = dict(dofiles)
+    if late:
+        pdof[late["dofile"]] = v1
+    proj = {"dirs": [""], "sources": ["s0"], "dofiles": pdof, "targets": cyc + pre + sib, "watch": []}
+    return {"project": proj, "late": late, "invs": [{"argv": argv, "cwd": "", "env": env, "jobserver": js}], "cycle": cyc,
             "entries": entries, "jobs": jobs, "excluded_d8": excluded_d8, "parallel_entries_into_cycle": len(cyc_entries) >= 2 and jobs >= 2,
             "schedule": draw(sgen.schedule()), "sopts": {"coincide": False, "token_games": False, "silence_s": 5.0,
                                                            "patient": draw(st.integers(0, 1)) == 1}}
@@ -90,6 +103,17 @@ def run_case(case, tier):
     out = hist.Outcome()
     r = sched.SchedRunner(case, tag="c12")
     try:
+        late = case.get("late")
+        if late:
+            inv0 = case["invs"][0]
+            pre = runner.run_cmd(r.disk, ["redo-ifchange"] + hist.M._dedup(case["entries"]), env_extra=inv0["env"])
+            r.disk.take_trace()
+            if pre.rc != 0:
+                raise runner.Inconclusive("acyclic first build failed: " + pre.text()[-300:])
+            r.disk.write(late["dofile"], hist.P.render_do(late["dofile"], late["spec"]).encode(), fresh_inode=True)
+            if late.get("edit_source"):
+                r.disk.write("s0", hist.P.source_content("s0", 1))
+            out.events["c12:cycle-introduced-by-edit-after-acyclic-build"] += 1
         r.run()
         inv = r.invs[0]
         out.commands = 1
@@ -109,7 +133,11 @@ def run_case(case, tier):
             if case["parallel_entries_into_cycle"]:
                 ev["c12:>=2-cycle-members-on-command-line-parallel"] += 1
         # how many command-line entries lead into the cycle (sibling jobs of one redo process entering it)
-        dofs = case["project"]["dofiles"]
+        dofs = dict(case["project"]["dofiles"])
+        if late:
+            dofs[late["dofile"]] = late["spec"]
+        if late and any(stt[0] == "stamp" for c in cyc for stt in dofs[c + ".do"]["body"]):
+            ev["c12:late-cycle-with-checksummed-member"] += 1
 
         def reaches(t, seen=None):
             seen = seen or set()
@@ -121,7 +149,7 @@ def run_case(case, tier):
             return any(reaches(q, seen) for stt in dofs[t + ".do"]["body"] if stt[0] == "dep" for q in stt[2])
         n_reach = len([e for e in hist.M._dedup(case["entries"]) if reaches(e)])
         sig_shape = {"entries_reaching_cycle": ">=2" if n_reach >= 2 else str(n_reach),
-                     "parallel": case["jobs"] >= 2, "self_loop": len(cyc) == 1}
+                     "parallel": case["jobs"] >= 2, "self_loop": len(cyc) == 1, "late": bool(late)}
         ctx = {"argv": inv.spec["argv"], "rc": inv.rc, "env": inv.spec["env"], "text": text[-2500:],
                "decisions": r.tl.decisions[-30:], "starts": dict(r.tl.starts)}
         if r.hang:
